@@ -16,7 +16,7 @@ type RaceWatcher struct {
 // RaceReport is one "WARNING: DATA RACE" block.
 type RaceReport struct {
 	Text    string
-	Library bool   // both stacks contain a jsonschema frame
+	Library bool   // attributed to the library (see classifyRace)
 	Site    string // the two innermost library functions
 }
 
@@ -74,10 +74,24 @@ func classifyRace(blk string) RaceReport {
 	if len(rep.Text) > 3000 {
 		rep.Text = rep.Text[:3000]
 	}
+	// Attribution. A report belongs to the library if at least one of the two accesses happened
+	// under a jsonschema frame and neither access was made by harness code itself. The second
+	// clause matters for the pattern "the library hands out memory it keeps writing to": the
+	// caller's read of the returned bytes happens in standard-library code (encoding/json
+	// compacting the output of MarshalJSON) with no jsonschema frame left on the stack.
 	var sites []string
 	lib := len(stacks) >= 2
+	anyLib := false
 	for _, st := range stacks {
 		found := ""
+		harnessAccess := false
+		for _, fr := range st {
+			if strings.HasPrefix(fr, "runtime.") {
+				continue
+			}
+			harnessAccess = strings.HasPrefix(fr, "verif.local/")
+			break
+		}
 		for _, fr := range st {
 			if strings.HasPrefix(fr, libPrefix) {
 				fn := strings.TrimPrefix(fr, libPrefix)
@@ -106,12 +120,17 @@ func classifyRace(blk string) RaceReport {
 				break
 			}
 		}
-		if found == "" {
-			lib = false
+		if found != "" {
+			anyLib = true
+		} else {
+			found = "(caller of the library)"
+			if harnessAccess {
+				lib = false
+			}
 		}
 		sites = append(sites, found)
 	}
-	rep.Library = lib
+	rep.Library = lib && anyLib
 	if len(sites) > 2 {
 		sites = sites[:2]
 	}
